@@ -216,6 +216,9 @@ impl Agg {
     }
 }
 
+/// a single run that takes longer than this (real time) is reported as a hang
+pub const HANG_MS: u64 = 40_000;
+
 pub struct Opts {
     pub tier: Tier,
     pub seed: u64,
@@ -287,7 +290,7 @@ pub struct ReplayFile {
     pub any_clause: bool,
 }
 
-pub fn replay<P: Prop>(p: &P, path: &Path) -> i32 {
+pub fn replay<P: Prop + 'static>(p: &'static P, path: &Path) -> i32 {
     let s = match std::fs::read_to_string(path) {
         Ok(s) => s,
         Err(e) => {
@@ -309,6 +312,27 @@ pub fn replay<P: Prop>(p: &P, path: &Path) -> i32 {
             return 2;
         },
     };
+    if rf.clause == "hang" {
+        // the scenario does not return: run it on a helper thread and give it the watchdog's time
+        let (tx, rx) = std::sync::mpsc::channel();
+        let sc2 = sc.clone();
+        let pp: &'static P = p;
+        let _ = std::thread::spawn(move || {
+            let _ = pp.execute(&sc2);
+            let _ = tx.send(());
+        });
+        return match rx.recv_timeout(std::time::Duration::from_millis(HANG_MS)) {
+            Ok(()) => {
+                println!("replay: the scenario returned: hang did NOT reproduce");
+                0
+            },
+            Err(_) => {
+                println!("replay: the scenario has not returned after {} s: hang reproduced", HANG_MS / 1000);
+                println!("VIOLATION property={} replay={}", p.id(), path.display());
+                std::process::exit(1)
+            },
+        };
+    }
     if let Some(pre) = &rf.prelude {
         match serde_json::from_value::<P::Sc>(pre.clone()) {
             Ok(pre) => {
@@ -389,7 +413,7 @@ pub fn run_batch<P: Prop>(p: &P, opts: &Opts) -> i32 {
                 for s in slots.iter() {
                     let tag = s.0.load(Ordering::Relaxed);
                     let st = s.1.load(Ordering::Relaxed);
-                    if tag != u64::MAX && now.saturating_sub(st) > 120_000 {
+                    if tag != u64::MAX && now.saturating_sub(st) > HANG_MS {
                         *hang.lock().unwrap() = Some(tag);
                         return;
                     }
@@ -412,7 +436,39 @@ pub fn run_batch<P: Prop>(p: &P, opts: &Opts) -> i32 {
     let failures_seen = AtomicU64::new(0);
     let want_hashes = opts.dump_hashes.is_some();
 
-    let agg = pool.install(|| {
+    let replay_dir_early = root.join("replays");
+    let _ = std::fs::create_dir_all(&replay_dir_early);
+    let report_hang = |tag: u64| -> ! {
+        let sweep = tag >> 62 & 1 == 1;
+        let idx = tag & !(1 << 62);
+        let mut stats = GenStats::default();
+        let sc = scenario_for(p, opts, idx, sweep, &mut stats);
+        let path = replay_dir_early.join(format!("{}-{}-{}{}-hang.json", p.id(), opts.seed, if sweep { "s" } else { "r" }, idx));
+        let rf = ReplayFile {
+            property: p.id().to_string(),
+            seed: opts.seed,
+            run_index: idx,
+            from_sweep: sweep,
+            clause: "hang".into(),
+            detail: "run exceeded the 40 s wall-clock watchdog (a run normally takes well under a second)".into(),
+            trace_hash: 0,
+            original_size: 0,
+            minimised_size: 0,
+            shrink_executions: 0,
+            scenario: serde_json::to_value(&sc).unwrap(),
+            trace: Value::Null,
+            prelude: None,
+            any_clause: false,
+        };
+        let _ = std::fs::write(&path, serde_json::to_string_pretty(&rf).unwrap());
+        println!("violation: clause=hang run={}{} detail=the run did not return within 40 s", if sweep { "sweep#" } else { "seeded#" }, idx);
+        println!("VIOLATION property={} replay={}", p.id(), path.display());
+        std::process::exit(1)
+    };
+    let (fin_tx, fin_rx) = std::sync::mpsc::channel::<()>();
+    let agg = std::thread::scope(|scope| {
+        let worker = scope.spawn(|| {
+            let a = pool.install(|| {
         (0..n_chunks)
             .into_par_iter()
             .map(|c| {
@@ -446,6 +502,21 @@ pub fn run_batch<P: Prop>(p: &P, opts: &Opts) -> i32 {
                 a
             })
             .reduce(Agg::default, Agg::merge)
+            });
+            let _ = fin_tx.send(());
+            a
+        });
+        loop {
+            if fin_rx.recv_timeout(std::time::Duration::from_millis(300)).is_ok() {
+                break;
+            }
+            if let Some(tag) = *hang.lock().unwrap() {
+                // a worker is stuck inside the library: report and leave (the stuck thread
+                // cannot be joined)
+                report_hang(tag);
+            }
+        }
+        worker.join().expect("worker")
     });
     done.store(true, Ordering::Relaxed);
     let _ = wd.join();
@@ -596,34 +667,6 @@ pub fn run_batch<P: Prop>(p: &P, opts: &Opts) -> i32 {
         println!("violation: clause={} run={}{} detail={}", clause, if *sweep { "sweep#" } else { "seeded#" }, idx, viol.detail);
         println!("           scenario shrunk {} -> {} bytes of JSON in {} executions", orig_size, min_size, execs);
         violation_lines.push(format!("VIOLATION property={} replay={}", p.id(), path.display()));
-    }
-
-    // ---- hang? ----
-    if let Some(tag) = *hang.lock().unwrap() {
-        let sweep = tag >> 62 & 1 == 1;
-        let idx = tag & !(1 << 62);
-        let mut stats = GenStats::default();
-        let sc = scenario_for(p, opts, idx, sweep, &mut stats);
-        let path = replay_dir.join(format!("{}-{}-{}{}-hang.json", p.id(), opts.seed, if sweep { "s" } else { "r" }, idx));
-        let rf = ReplayFile {
-            property: p.id().to_string(),
-            seed: opts.seed,
-            run_index: idx,
-            from_sweep: sweep,
-            clause: "hang".into(),
-            detail: "run exceeded the 120 s wall-clock watchdog".into(),
-            trace_hash: 0,
-            original_size: 0,
-            minimised_size: 0,
-            shrink_executions: 0,
-            scenario: serde_json::to_value(&sc).unwrap(),
-            trace: Value::Null,
-            prelude: None,
-            any_clause: false,
-        };
-        let _ = std::fs::write(&path, serde_json::to_string_pretty(&rf).unwrap());
-        println!("VIOLATION property={} replay={}", p.id(), path.display());
-        std::process::exit(1);
     }
 
     // ---- dead probes ----
